@@ -102,3 +102,28 @@ MANIFEST_TEXT["C04"] = {
     "technique": "property-based testing (rapid) with structured mutation + boundary values; loop-budget hooks; native go fuzzing in the thorough tier",
 }
 NOT_APPLICABLE[:] = [e for e in NOT_APPLICABLE if e["property_id"] not in CHECKS]
+
+CHECKS["C03"] = {
+    "test": "TestC03",
+    "quick": {"shards": 8, "checks": 6000},
+    "thorough": {"shards": 16, "checks": 60000},
+    "rule": "two parts. Enumerated (complete per state, states dealt over shards): for every forest with N<=4 leaves and ANY dead set, and selected N in 5..6 "
+            "(thorough ..8): every tuple of k<=2 (thorough 3 for N<=4) targets in [0,maxPos], hashes and 0..3 proof hashes (fewer where the per-state cap "
+            "of 1.5M/12M tuples would be passed) from {every true node hash, one fresh value}, given to Verify and Pollard.Verify. Generated (rapid): states of "
+            "up to 48 (thorough 300) leaves; an honest proof put through 1-3 structured mutations or a free tuple, given to Verify, Pollard.Verify, "
+            "MapPollard.Verify, VerifyPartialProof (all proof hashes, and only the missing ones) and Verify on the forest embedded under a stump of up to "
+            "2^62 leaves. Oracle: accepted => every (non-zero) hash equals the model's node hash at its claimed position. Non-trivial: not an honest "
+            "(distinct live leaves, canonical proof) tuple, as many hashes as targets, all targets <= maxPos.",
+    "assumptions": COMMON_ASSUME + ["claims with an all-zero target hash are outside the property's hypothesis ('a list of non-zero hashes') and are skipped, counted",
+                                    "a map forest's verifier is also allowed to read a target as a position of its own TotalRows layout",
+                                    "panics / non-termination met here are C04's business and only counted"],
+}
+MANIFEST_TEXT["C03"] = {
+    "level_text": "Exploration with a completely enumerated small-alphabet sub-space (every tuple over every tiny forest within stated bounds: about 10^7 claims "
+                  "quick) plus structured mutation of honest proofs on larger forests. One-directional oracle (accepted => true) so a strict verifier can never "
+                  "trip it. Soundness over all inputs cannot be enumerated.",
+    "design_ref": "DESIGN.md section 6 C03",
+    "level_note": TRUST,
+    "technique": "exhaustive small-alphabet enumeration + property-based structured mutation (rapid), model-based soundness oracle",
+}
+NOT_APPLICABLE[:] = [e for e in NOT_APPLICABLE if e["property_id"] not in CHECKS]
